@@ -678,6 +678,27 @@ class StmtMixin:
                 src = self.ev(gen.iter, nf)
                 if src.meta and src.meta[0] == "genexp":
                     raise Unsupported("nested generator source")
+                if src.meta and src.meta[0] == "oldview":
+                    # quantification over the contents the container HAD (old(c) / pre(c) as a generator source)
+                    view = src
+                    src = SV(src.term, src.ty)
+                    self.in_view(view, lambda: self._quant_gen_setup(gen, src, nf, bound, guards))
+                else:
+                    self._quant_gen_setup(gen, src, nf, bound, guards)
+                for c in gen.ifs:           # filter conditions read the CURRENT heap
+                    guards.append(self.truthy(self.ev(c, nf)))
+            body = self.truthy(self.ev(node.elt, nf))
+        finally:
+            self.pure -= 1
+            self.qdepth -= 1
+        if name == "all":
+            return SV(mk_bool(z3.ForAll(bound, z3.Implies(z3.And(guards), body))), Ty("bool"))
+        return SV(mk_bool(z3.Exists(bound, z3.And(z3.And(guards), body))), Ty("bool"))
+
+    def _quant_gen_setup(self, gen, src, nf, bound, guards):
+        st = self.st
+        if True:
+            if True:
                 d = src.meta[1] if (src.meta and src.meta[0] == "lazyiter") else self.iterable(src, nf)
                 j = z3.Int(st.fresh_name("q"))
                 bound.append(j)
@@ -701,12 +722,3 @@ class StmtMixin:
                 else:
                     guards.append(z3.And(0 <= j, j < self.iter_len(d)))
                     self.assign(gen.target, self.iter_get(d, j, nf), nf)
-                for c in gen.ifs:
-                    guards.append(self.truthy(self.ev(c, nf)))
-            body = self.truthy(self.ev(node.elt, nf))
-        finally:
-            self.pure -= 1
-            self.qdepth -= 1
-        if name == "all":
-            return SV(mk_bool(z3.ForAll(bound, z3.Implies(z3.And(guards), body))), Ty("bool"))
-        return SV(mk_bool(z3.Exists(bound, z3.And(z3.And(guards), body))), Ty("bool"))
